@@ -19,7 +19,7 @@ Ltac2 Set C17_whnf.is_blocked := fun c =>
   Ltac2.List.exist (Ltac2.Constr.equal c)
     ['@bind; 'Rltb; 'Rleb; 'Reqb; 'Rfloor; 'Rtrunc; 'Rround; 'is_int; 'Rfmod; 'Rround_nd;
      'Rlit; 'atan2; 'Rpow; 'pow10; 'Rabs; 'sqrt; 'sin; 'cos; 'tan; 'asin; 'acos; 'atan;
-     'exp; 'ln; 'Rpower; 'powerRZ; 'IZR; 'PI; '@py_getitem; '@math_fsum; 'fl; 'idxs].
+     'exp; 'ln; 'Rpower; 'powerRZ; 'IZR; 'PI; '@py_getitem; '@math_fsum; 'fl; 'idxs; '@enum_from; '@zip2].
 
 Definition py_getitem_body := Eval unfold py_getitem in @py_getitem.
 Lemma py_getitem_unfold {F} (O : FloatOps F) v i : py_getitem O v i = py_getitem_body F O v i.
@@ -30,6 +30,8 @@ Ltac is_atom_list l :=
         | lazymatch l with
           | fl _ => idtac
           | idxs _ _ => idtac
+          | enum_from _ (fl _) => idtac
+          | zip2 (fl _) (fl _) => idtac
           | app ?a _ => is_atom_list a
           end ].
 
@@ -199,5 +201,5 @@ Ltac fsum_hook run s :=
       else (let H := fresh "Hev" in eassert (H : a = _) by (run; py_canon_refl2); rewrite H; clear H)
   end.
 Ltac idx_floats :=
-  rewrite getitem_floats by (first [assumption | rewrite ?fl_length; lia]).
+  rewrite getitem_floats by (first [assumption | rewrite ?fl_length; cbn [length]; lia]); cbn [nth].
 Ltac pyrunL := pyrun2 pylra idx_floats ltac:(fun s => fsum_hook ltac:(pyrunL) s).
